@@ -2276,6 +2276,27 @@ class subarray : public const_subarray<T, D, ElementPtr, Layout> {
 	constexpr auto blocked(index first, index last)      & -> subarray { return sliced(first, last).reindexed(first); }
 	constexpr auto blocked(index first, index last)     && -> subarray { return sliced(first, last).reindexed(first); }
 
+	constexpr auto stenciled(iextension iex) const& { return blocked(iex.first(), iex.last()); }
+	constexpr auto stenciled(iextension iex, iextension iex1) const& { return ((stenciled(iex).rotated()).stenciled(iex1)).unrotated(); }
+	constexpr auto stenciled(iextension iex, iextension iex1, iextension iex2) const& { return ((stenciled(iex).rotated()).stenciled(iex1, iex2)).unrotated(); }
+	constexpr auto stenciled(iextension iex, iextension iex1, iextension iex2, iextension iex3) const& { return ((stenciled(iex).rotated()).stenciled(iex1, iex2, iex3)).unrotated(); }
+	template<class... Xs>
+	constexpr auto stenciled(iextension iex, iextension iex1, iextension iex2, iextension iex3, Xs... iexs) const& { return ((stenciled(iex).rotated()).stenciled(iex1, iex2, iex3, iexs...)).unrotated(); }
+
+	constexpr auto stenciled(iextension iex)      & -> subarray { return blocked(iex.first(), iex.last()); }
+	constexpr auto stenciled(iextension iex, iextension iex1)      & -> subarray { return ((stenciled(iex).rotated()).stenciled(iex1)).unrotated(); }
+	constexpr auto stenciled(iextension iex, iextension iex1, iextension iex2)      & -> subarray { return ((stenciled(iex).rotated()).stenciled(iex1, iex2)).unrotated(); }
+	constexpr auto stenciled(iextension iex, iextension iex1, iextension iex2, iextension iex3)      & -> subarray { return ((stenciled(iex).rotated()).stenciled(iex1, iex2, iex3)).unrotated(); }
+	template<class... Xs>
+	constexpr auto stenciled(iextension iex, iextension iex1, iextension iex2, iextension iex3, Xs... iexs)      & -> subarray { return ((stenciled(iex).rotated()).stenciled(iex1, iex2, iex3, iexs...)).unrotated(); }
+
+	constexpr auto stenciled(iextension iex)     && -> subarray { return blocked(iex.first(), iex.last()); }
+	constexpr auto stenciled(iextension iex, iextension iex1)     && -> subarray { return ((stenciled(iex).rotated()).stenciled(iex1)).unrotated(); }
+	constexpr auto stenciled(iextension iex, iextension iex1, iextension iex2)     && -> subarray { return ((stenciled(iex).rotated()).stenciled(iex1, iex2)).unrotated(); }
+	constexpr auto stenciled(iextension iex, iextension iex1, iextension iex2, iextension iex3)     && -> subarray { return ((stenciled(iex).rotated()).stenciled(iex1, iex2, iex3)).unrotated(); }
+	template<class... Xs>
+	constexpr auto stenciled(iextension iex, iextension iex1, iextension iex2, iextension iex3, Xs... iexs)     && -> subarray { return ((stenciled(iex).rotated()).stenciled(iex1, iex2, iex3, iexs...)).unrotated(); }
+
 	constexpr auto chunked(size_type count) const& { return static_cast<const_subarray<T, D, ElementPtr, Layout> const&>(*this).chunked(count); }
 	BOOST_MULTI_HD constexpr auto chunked(size_type count)  & -> subarray<T, D+1, typename subarray::element_ptr> { return this->chunked_aux_(count); }
 	BOOST_MULTI_HD constexpr auto chunked(size_type count) && -> subarray<T, D+1, typename subarray::element_ptr> { return this->chunked_aux_(count); }
